@@ -9,7 +9,7 @@ from engine import bind
 from .common import make_shell, tag
 from .coulomb import boys_stub
 
-MODULES = ["overlap", "overlap_screened", "kinetic", "momentum", "angmom", "moment", "point_charge", "eri", "eval", "eval_deriv"]
+MODULES = ["overlap", "overlap_screened", "eri_middle", "kinetic", "momentum", "angmom", "moment", "point_charge", "eri", "eval", "eval_deriv"]
 
 
 def block_fn(M, module, other, extra):
@@ -61,6 +61,18 @@ def block_fn(M, module, other, extra):
             return b
 
         return f, lambda sh: cls.construct_array_contraction(sh, other, other, other)
+    if module == "eri_middle":
+        # the tested shell in position two, a second generalized shell (two columns) in position three
+        cls = m["gbasis.integrals.electron_repulsion"].ElectronRepulsionIntegral
+        third = extra["third"]
+
+        def f(sh):
+            b = cls.construct_array_contraction(other, sh, third, other)
+            b = b * sh.norm_cont.reshape(1, 1, *b.shape[2:4], 1, 1, 1, 1)
+            b = b * third.norm_cont.reshape(1, 1, 1, 1, *b.shape[4:6], 1, 1)
+            return np.moveaxis(b, (2, 3), (0, 1))  # tested shell's (segment, component) axes first
+
+        return f, lambda sh: np.moveaxis(cls.construct_array_contraction(other, sh, third, other), (2, 3), (0, 1))
     if module in ("eval", "eval_deriv"):
         cls = m["gbasis.evals.eval_deriv"].EvalDeriv
         orders = np.array([0, 0, 0]) if module == "eval" else np.array([1, 0, 1])
@@ -88,12 +100,12 @@ class ContractionAlgebra:
     def shapes(self, tier):
         out = []
         for mod in MODULES:
-            ls = (0, 1) if tier == "quick" or mod in ("eri", "angmom") else (0, 1, 2)
+            ls = (0, 1) if tier == "quick" or mod in ("eri", "eri_middle", "angmom") else (0, 1, 2)
             if mod == "overlap_screened":
                 ls = (0,)
             for l in ls:
                 out.append(dict(module=mod, l=l, K=2, M=2))
-            if tier == "thorough" and mod not in ("eri",):
+            if tier == "thorough" and mod not in ("eri", "eri_middle"):
                 out.append(dict(module=mod, l=1, K=3, M=3))
                 out.append(dict(module=mod, l=0, K=4, M=1))
         return out
@@ -110,8 +122,9 @@ class ContractionAlgebra:
         A = M.vec("A", 3)
         exps = M.vec("a", K, "pos")
         coeffs = M.vec("d", (K, Mn))
-        other = make_shell(M, 1 if module != "eri" else 0, M.vec("B", 3), M.vec("od", (1, 1), "pos"), M.vec("ob", 1, "pos"))
-        extra = dict(C=M.vec("C", 3), pts=M.vec("R", (1, 3)), q=M.vec("q", 1), tol=M.scalar(M.pos("eps")))
+        other = make_shell(M, 1 if module not in ("eri", "eri_middle") else 0, M.vec("B", 3), M.vec("od", (1, 1), "pos"), M.vec("ob", 1, "pos"))
+        third = make_shell(M, 0, M.vec("C3", 3), M.vec("td", (1, 2), "pos"), M.vec("tb", 1, "pos")) if module == "eri_middle" else None
+        extra = dict(third=third, C=M.vec("C", 3), pts=M.vec("R", (1, 3)), q=M.vec("q", 1), tol=M.scalar(M.pos("eps")))
         f, raw = block_fn(M, module, other, extra)
         gen = make_shell(M, l, A, coeffs, exps)
         ref = f(gen)
